@@ -82,10 +82,17 @@ fn find_exit_keyword_p(
     // Ok if it finds the keyword (peeking)
     // Soft error if it finds something else
     // Fatal error if it finds EOF
-    peek_token().to_option().and_then(move |opt_token| {
+    let exit_keywords: Vec<Keyword> = exit_keywords.to_vec();
+    end_statement_ahead_p()
+        .and_tuple(peek_token().to_option())
+        .and_then(move |(end_statement_ahead, opt_token)| {
         match opt_token {
+            // END on its own is a statement of the block, not the start of END IF, END SUB etc.
+            Some(_) if end_statement_ahead => {
+                Err(ParserError::expected(&to_syntax_err(exit_keywords.iter())))
+            }
             Some(token) => {
-                for exit_keyword in exit_keywords {
+                for exit_keyword in exit_keywords.iter() {
                     if exit_keyword.matches_token(&token) {
                         return Ok(StatementOrExitKeyword::ExitKeyword);
                     }
@@ -105,6 +112,29 @@ fn find_exit_keyword_p(
             }
         }
     })
+}
+
+/// Peeks whether an `END` statement is ahead, i.e. the keyword END
+/// that is not followed by IF, SELECT, SUB, FUNCTION, TYPE or DEF.
+fn end_statement_ahead_p() -> impl Parser<StringView, Output = bool, Error = ParserError> {
+    keyword_ignoring(Keyword::End)
+        .and_keep_right(lead_opt_ws(peek_token().to_option()))
+        .filter(|opt_token| match opt_token {
+            Some(token) => ![
+                Keyword::If,
+                Keyword::Select,
+                Keyword::Sub,
+                Keyword::Function,
+                Keyword::Type,
+                Keyword::Def,
+            ]
+            .iter()
+            .any(|k| k.matches_token(token)),
+            None => true,
+        })
+        .peek()
+        .to_option()
+        .map(|opt| opt.is_some())
 }
 
 fn demand_statement_p()
